@@ -16,6 +16,7 @@ import (
 
 	"github.com/pokt-network/posmint/crypto"
 	sdk "github.com/pokt-network/posmint/types"
+	authTypes "github.com/pokt-network/posmint/x/auth/types"
 	posTypes "github.com/pokt-network/posmint/x/pos/types"
 
 	"verif/harness/internal/chain"
@@ -98,4 +99,61 @@ func execAstruct(w []string) string {
 		return "ok " + hx(cdc.MustMarshalBinaryBare(s))
 	}
 	return "bad-op"
+}
+
+// astdtx: a whole transaction (auth.StdTx) in amino binary against the model's `encodeStdTx`: an optional message (its own
+// registered encoding), the fee as a repeated field, the signature as a nested struct of key and signature bytes, memo, entropy.
+func genAstdtx(r *rand.Rand) (op string) {
+	defer func() {
+		if e := recover(); e != nil { // a message whose amount was never set cannot be encoded: not this operation's subject
+			op = ""
+		}
+	}()
+	tx := rndTx(r, msgKinds[r.Intn(len(msgKinds))])
+	if r.Intn(3) == 0 && len(tx.Fee) == 1 {
+		tx.Fee = sdk.NewCoins(tx.Fee[0], sdk.NewCoin("abc", sdk.NewInt(int64(1+r.Intn(9)))))
+	}
+	if r.Intn(8) == 0 {
+		tx.Msg = nil
+	}
+	if r.Intn(4) == 0 {
+		tx.Entropy = rndI64(r)
+	}
+	full := cdc.MustMarshalBinaryBare(tx)
+	var msgBz, pkBz []byte
+	if tx.Msg != nil {
+		msgBz = cdc.MustMarshalBinaryBare(tx.Msg)
+	}
+	if tx.Signature.PublicKey != nil {
+		pkBz = cdc.MustMarshalBinaryBare(tx.Signature.PublicKey)
+	}
+	toks := []string{"astdtx", hx(full[:4]), hx(msgBz), hx(pkBz), hx(tx.Signature.Signature), hx([]byte(tx.Memo)), fmt.Sprint(tx.Entropy)}
+	for _, c := range tx.Fee {
+		toks = append(toks, hx([]byte(c.Denom))+":"+c.Amount.String())
+	}
+	return strings.Join(toks, " ")
+}
+
+func execAstdtx(w []string) string {
+	var msg sdk.Msg
+	if b := unhx(w[2]); len(b) > 0 {
+		if err := cdc.UnmarshalBinaryBare(b, &msg); err != nil {
+			return "err"
+		}
+	}
+	var pk crypto.PublicKey
+	if b := unhx(w[3]); len(b) > 0 {
+		if err := cdc.UnmarshalBinaryBare(b, &pk); err != nil {
+			return "err"
+		}
+	}
+	ent, _ := strconv.ParseInt(w[6], 10, 64)
+	var fee sdk.Coins
+	for _, t := range w[7:] {
+		x := strings.Split(t, ":")
+		a, _ := new(big.Int).SetString(x[1], 10)
+		fee = append(fee, sdk.Coin{Denom: string(unhx(x[0])), Amount: sdk.NewIntFromBigInt(a)})
+	}
+	tx := authTypes.StdTx{Msg: msg, Fee: fee, Signature: authTypes.StdSignature{PublicKey: pk, Signature: unhx(w[4])}, Memo: string(unhx(w[5])), Entropy: ent}
+	return "ok " + hx(cdc.MustMarshalBinaryBare(tx))
 }
